@@ -36,7 +36,7 @@ RULE = ('all DAGs on n cells (fixed topological order) x 4 variants x every '
         'itself in the focus (extraction has to follow a reference)')
 N = {'quick': 4, 'thorough': 5}
 BOUNDS = {t: {'cells': N[t], 'graphs': 2 ** (N[t] * (N[t] - 1) // 2),
-              'variants': 11, 'change_values': [0, 7]} for t in N}
+              'variants': 12, 'change_values': [0, 7]} for t in N}
 ASSUMPTIONS = ['reference closure: reachability in the generated graph']
 TECHNIQUE = ('exhaustive enumeration of dependency DAGs x focus sets x model '
              'states, extract() executed on the real model, differential '
@@ -52,7 +52,11 @@ LEVEL_NOTE = ('Every step runs the implementation; the only model is the '
               'n <= 4 (5) cells, two alternative values per input.')
 
 VARIANTS = ('direct', 'range', 'two-sheets', 'name', 'range-blank', 'mirror',
-            'twin-coord', 'name-case', 'gap', 'range-za', 'range-name')
+            'twin-coord', 'name-case', 'gap', 'range-za', 'range-name',
+            'absent-ref')
+# absent-ref: every formula also reads a cell that is not stored, on a sheet
+#   of which the original holds another cell (outside every focus) and the
+#   extract therefore nothing: blank in both.
 # range-za: the cells lie in one row across the Z / AA column boundary and
 #   contiguous dependencies are written as a range (Y1:AB1);
 # range-name: the last two cells have a range name (q1_rng) that formulas
@@ -148,6 +152,8 @@ def formula_of(i, deps_i, variant, n):
                     for j in deps_i)
     if variant == 'gap':
         body += '+SUM(%s)' % GAP_RANGE
+    if variant == 'absent-ref':
+        body += '+Other!Z9+IF(Other!Y8="",0,1000)'
     return '=' + body
 
 
@@ -224,6 +230,8 @@ def build(code, n, variant):
         d[addr(i, variant)] = f if f else i + 1
     if variant == 'gap':
         d.update(GAP_CELLS)
+    if variant == 'absent-ref':
+        d['Other!A1'] = 5
     return lib.compile_dict(d), deps
 
 
